@@ -5,7 +5,7 @@ import itertools
 
 import ptydrive as P
 import sweep
-from model_c09 import EDIT, KEYS, NAV, SEL, Model
+from model_c09 import EDIT, KEYS, NAV, NAV_FIT, SEL, Model
 
 LINES = ["a", "b", "ab", "ba", "aab", "x y", "a-b", "bb a", "b-a b"]
 
@@ -142,11 +142,14 @@ def run(c, replay):
     seen = {ci: set() for ci in range(ncfg)}
     total_states = 0
     Lsum = None
+    def alpha_for(ci):
+        # offset-up / offset-down are modelled only where every result fits in the window (the view cannot scroll)
+        return alpha + (NAV_FIT if CFGS[ci]["rows"] - CFGS[ci].get("prompt_lines", 2) >= len(LINES) else [])
     for d in range(1, depth + 1):
         jobs = []
         for ci in range(ncfg):
             for h in frontier[ci]:
-                for a in alpha:
+                for a in alpha_for(ci):
                     jobs.append((ci, (), tuple(h) + (a,), d == depth or d == 1))
         left = budget - (time.time() - t0)
         if left < 20:
@@ -159,7 +162,7 @@ def run(c, replay):
         for ci in range(ncfg):
             cfg = CFGS[ci]
             for h in frontier[ci]:
-                for a in alpha:
+                for a in alpha_for(ci):
                     m = model_for(cfg)
                     for el in tuple(h) + (a,):
                         apply_model(m, el)
